@@ -51,6 +51,8 @@ def run(ctx, run):
                 ("block complete (left == 0)", lambda a: a.cmp_const("<=", "_vbi_pfc_demux.left", 0) or a.cmp_const("==", "_vbi_pfc_demux.left", 0))]
         _need(run, fd, i, "RF-DOM:_vbi_pfc_demux_decode:callback", "PFC delivery", need, ats)
 
+    _pfc_scan_reaches_packet_end(ctx, run, fd)
+
     # ---- RF-NEG ------------------------------------------------------------------------
     n_src = 0
     for fn, unit in (("idl_a_demux_feed", IDL), ("vbi_idl_demux_feed", IDL), ("_vbi_pfc_demux_decode", PFC), ("vbi_pfc_demux_feed", PFC)):
@@ -877,3 +879,101 @@ def _filter_keys_unmodified(ctx, run):
                               "than the one the demultiplexer was opened for (blocks of a foreign stream are delivered, the "
                               "selected one never)" % (ex.pretty(f, i)[:50], l["member"], l["member"]), ex.loc(f, i))
     run.floor("filter keys stored by _vbi_pfc_demux_init", n, 2)
+
+
+def _pfc_scan_reaches_packet_end(ctx, run, f):
+    """_vbi_pfc_demux_decode() walks the 42 bytes of a packet with the column cursor `col`.  Where it stops with TRUE
+    because the cursor ran out ("no more data in this packet"), the cursor has reached the end of the packet: a block separator may stand in any
+    of the remaining columns (its structure header continues in the next packet), and a scan that gives up early skips it
+    - the whole next block is dropped while feed() still reports success.  Decided on the interval state: at every
+    successful return inside the column loop the lower bound of the cursor is the packet size."""
+    from .. import loops
+    size = None
+    for p in f.params:
+        if "[" in p.get("t", "") or p.get("arr"):
+            size = (p.get("arr") or [None])[0]
+    size = size or 42
+    an = ctx.analysis(f)
+    L = loops.natural_loops(f)
+    n = 0
+    for head, body in L.items():
+        t = f.blocks[head].term
+        if not t or "cond" not in t:
+            continue
+        c = f.exprs[ex.skip(f, t["cond"])]
+        if not (c["k"] == "bin" and c["op"] in ("<", "<=")):
+            continue
+        cur = f.exprs[ex.skip(f, c["c"][0])]
+        if cur["k"] != "ref":
+            continue
+        allowed = {cur["name"]}
+        if ex.const(f, c["c"][1]) in (size, size - 1):
+            key_ = an.track_key(c["c"][0])
+        else:
+            # the same loop with a pointer cursor: `p < packet_end`, packet_end standing at buffer + 42
+            endr = f.exprs[ex.skip(f, c["c"][1])]
+            es = loops._entry_state(an, head, body)
+            if es is None or es.get(("pb", cur["name"])) is None:
+                continue
+            if endr["k"] == "ref":
+                if es.get(("pb", endr.get("name"))) != es.get(("pb", cur["name"])) or es.get(("iv", "@" + endr["name"])) != (size, size):
+                    continue
+                allowed = {cur["name"], endr["name"]}
+            elif endr["k"] == "bin" and endr["op"] == "+":
+                # `p < buffer + 42` (what N4 leaves of a new `packet_end` local)
+                a0, a1 = f.exprs[ex.skip(f, endr["c"][0])], f.exprs[ex.skip(f, endr["c"][1])]
+                while a0["k"] == "cast" and a0.get("c"):
+                    a0 = f.exprs[ex.skip(f, a0["c"][0])]
+                if not (a0["k"] == "ref" and a0.get("dk") == "param" and (a0.get("arr") or [None])[0] == size
+                        and ex.const(f, endr["c"][1]) == size and es[("pb", cur["name"])][0] == size):
+                    continue
+                allowed = {cur["name"], a0["name"]}
+            else:
+                continue
+            key_ = ("iv", "@" + cur["name"])
+        # successful returns the loop body reaches without going through the head again
+        region = set(body)
+        for b in list(body):
+            region |= flow.reach_from(f, b, avoid={head})
+        for bid in sorted(region):
+            for i in flow.events(f, bid):
+                e = f.exprs[i]
+                if e["k"] != "ret" or not e.get("c") or ex.const(f, e["c"][0]) in (0, None):
+                    continue
+                if bid not in body and not any(flow.dominates(f, b2, bid) for b2 in body if b2 != head):
+                    continue
+                st = an.state_before(i)
+                if st is None:
+                    continue
+                # the "cursor ran out" exit: the innermost branch in front of the return tests the cursor itself (other
+                # successful returns are decided by the block pointer or by the bytes still missing from the block)
+                de = flow.dominating_edges(f, bid)
+                if not de or de[0][2] is None or de[0][1] not in ("T", "F"):
+                    continue
+                inner = atoms.atoms_of(f, de[0][2], de[0][1] == "T", de[0][0], de[0][1])
+                if not inner or not all(a.R is not None and not a.L.fields and not a.L.calls and not a.R.fields and not a.R.calls
+                                        and cur["name"] in (a.L.locals | a.R.locals) and (a.L.locals | a.R.locals) <= allowed
+                                        for a in inner):
+                    continue
+                n += 1
+                iv = st.get(key_) if key_ is not None else None
+                key = "RF-IVL:%s:scan-reaches-packet-end@%d" % (f.name, e.get("line", 0))
+                if iv is not None and iv[0] is not None and iv[0] >= size:
+                    run.holds("RF-IVL", key, "`return TRUE` inside the column loop only with %s >= %d" % (cur["name"], size), ex.loc(f, i))
+                else:
+                    run.violation("RF-IVL", key, "inside the column loop `%s` is reached with %s as low as %s: the scan gives up with "
+                                  "%d bytes of the packet left, a block separator standing there is skipped and the block it "
+                                  "announces is dropped although the feed reports success"
+                                  % (ex.pretty(f, i), cur["name"], iv[0] if iv and iv[0] is not None else "unbounded",
+                                     size - (iv[0] if iv and iv[0] is not None else 0)), ex.loc(f, i),
+                                  witness={"function": f.name, "cursor_interval": list(iv) if iv else None})
+    if n == 0 and not any((f.blocks[h].term or {}).get("cond") is not None and
+                          ex.const(f, f.exprs[ex.skip(f, f.blocks[h].term["cond"])].get("c", [None, None])[1]
+                                   if f.exprs[ex.skip(f, f.blocks[h].term["cond"])]["k"] == "bin" else None) in (size, size - 1)
+                          for h in L):
+        # no loop over a column index any more (a pointer cursor compared with an end expression): this clause is not
+        # decided on such a shape; the subscript / cursor bounds of the function are still decided by RF-IVL
+        run.note("_vbi_pfc_demux_decode: the column loop is not written over an index compared with the packet size; the "
+                 "'scan reaches the packet end' clause was not decided in this run")
+        return
+    run.floor("successful returns inside the PFC column loop", n, 1)
